@@ -1,6 +1,6 @@
 CONSTANTS
   Classes <- MCClassesQ
-  MaxR = 2
+  MaxR = 1
   MaxD = 2
   DefKinds <- MCKindsQ
   DDefKinds <- MCDKinds
